@@ -95,6 +95,35 @@ SELECT a, b FROM t
 impl RuleAM04 {
     /// returns an anchor to the rule
     fn analyze_result_columns(&self, query: Query<()>) -> Result<(), ErasedSegment> {
+        self.analyze_query(query, &mut Vec::new())
+    }
+
+    /// `active` holds the queries on the path that is being analysed. A common table
+    /// expression that is reached again from inside itself selects from itself: its
+    /// columns cannot be resolved, and following the reference once more would never end.
+    fn analyze_query(
+        &self,
+        query: Query<()>,
+        active: &mut Vec<*const ()>,
+    ) -> Result<(), ErasedSegment> {
+        let key = std::rc::Rc::as_ptr(&query.inner) as *const ();
+        if active.contains(&key) {
+            return match query.inner.borrow().selectables.first() {
+                Some(selectable) => Err(selectable.selectable.clone()),
+                None => Ok(()),
+            };
+        }
+        active.push(key);
+        let result = self.analyze_selectables(&query, active);
+        active.pop();
+        result
+    }
+
+    fn analyze_selectables(
+        &self,
+        query: &Query<()>,
+        active: &mut Vec<*const ()>,
+    ) -> Result<(), ErasedSegment> {
         if query.inner.borrow().selectables.is_empty() {
             return Ok(());
         }
@@ -105,20 +134,20 @@ impl RuleAM04 {
                 if !wildcard.tables.is_empty() {
                     for wildcard_table in wildcard.tables {
                         if let Some(alias_info) = selectable.find_alias(&wildcard_table) {
-                            self.handle_alias(&selectable, alias_info, &query)?;
+                            self.handle_alias(&selectable, alias_info, query, active)?;
                         } else {
                             let Some(cte) = query.lookup_cte(&wildcard_table, true) else {
                                 return Err(selectable.selectable);
                             };
 
-                            self.analyze_result_columns(cte)?;
+                            self.analyze_query(cte, active)?;
                         }
                     }
                 } else {
                     let selectable = query.inner.borrow().selectables[0].selectable.clone();
                     for source in query.crawl_sources(selectable.clone(), false, true) {
                         if let Source::Query(query) = source {
-                            self.analyze_result_columns(query)?;
+                            self.analyze_query(query, active)?;
                             return Ok(());
                         }
                     }
@@ -136,6 +165,7 @@ impl RuleAM04 {
         selectable: &Selectable,
         alias_info: AliasInfo,
         query: &Query<'_, ()>,
+        active: &mut Vec<*const ()>,
     ) -> Result<(), ErasedSegment> {
         let select_info_target = query
             .crawl_sources(alias_info.from_expression_element, false, true)
@@ -144,7 +174,7 @@ impl RuleAM04 {
             .unwrap();
         match select_info_target {
             Source::TableReference(_) => Err(selectable.selectable.clone()),
-            Source::Query(query) => self.analyze_result_columns(query),
+            Source::Query(query) => self.analyze_query(query, active),
         }
     }
 }
